@@ -45,6 +45,13 @@ let nat_of_int (i : int) : nat =
 let int_of_nat (n : nat) : int =
   let rec go acc = function O -> acc | Model.S m -> go (acc + 1) m in go 0 n
 
+(* Z <-> int (binary positives) *)
+let rec pos_of_int (i : int) : positive =
+  if i <= 1 then XH else if i land 1 = 0 then XO (pos_of_int (i lsr 1)) else XI (pos_of_int (i lsr 1))
+let z_of_int (i : int) : z = if i = 0 then Z0 else if i > 0 then Zpos (pos_of_int i) else Zneg (pos_of_int (-i))
+let rec int_of_pos = function XH -> 1 | XO p -> 2 * int_of_pos p | XI p -> 2 * int_of_pos p + 1
+let int_of_z = function Z0 -> 0 | Zpos p -> int_of_pos p | Zneg p -> - (int_of_pos p)
+
 let geti = function I i -> i | _ -> failwith "int expected"
 let getl = function L l -> l | _ -> failwith "list expected"
 let gets = function S s -> s | _ -> failwith "string expected"
@@ -64,6 +71,18 @@ let run (cmd : string) (a : v) : v =
        | ReturnInput -> S "return_input"
        | RaiseNonSquare -> S "raise_nonsquare"
        | Communicate k -> L [S "communicate"; vnat k])
+  | ("greedy" | "greedy_ok_b" | "greedy_prop_b"), L (L work :: L groups :: I colo :: rest) ->
+      let work = List.map (fun l -> List.map (function L [I f; I c] -> (nat_of_int f, z_of_int c) | _ -> failwith "factor") (getl l)) work in
+      let groups = List.map (fun g -> List.map (fun r -> nat_of_int (geti r)) (getl g)) groups in
+      let asg_of v = List.map (function L [I l; L fl] ->
+          (nat_of_int l, List.map (function L [I f; I w] -> (nat_of_int f, nat_of_int w) | _ -> failwith "asg") fl)
+          | _ -> failwith "asg") (getl v) in
+      (match cmd, rest with
+       | "greedy", [] ->
+           vlist (fun (l, fl) -> L [vnat l; vlist (fun (f, w) -> L [vnat f; vnat w]) fl]) (greedy work groups (colo <> 0))
+       | "greedy_ok_b", [a] -> vbool (greedy_ok_b work groups (colo <> 0) (asg_of a))
+       | "greedy_prop_b", [a] -> vbool (greedy_prop_b work groups (colo <> 0) (asg_of a))
+       | _ -> failwith "greedy args")
   | _ -> failwith ("unknown command or bad argument: " ^ cmd)
 
 let () =
